@@ -39,10 +39,11 @@ PROPS = {
         "scale": {"quick": 1, "thorough": 30},
         "floors": {
             "quick": {"ops": 60000, "drift_rechecks": 10000, "histories_compressed": 1000, "histories_uncompressed": 500,
-                      "op_compose": 500, "op_exists": 500, "op_condition": 1000, "op_ite": 1000, "unique_table_grows": 500, "exh3_blocks": 96},
+                      "op_compose": 500, "op_exists": 500, "op_condition": 1000, "op_ite": 1000, "unique_table_grows": 500, "exh3_blocks": 96,
+                      "histories_over_spread_labels": 200},
             "thorough": {"ops": 1500000, "exh3_blocks": 192},
         },
-        "rule": "Every SDD builder call (var, negate, and, or, xor, iff, ite, condition, exists, compose) is one evaluation: the returned SddPtr is evaluated structurally (OR over prime&sub, BinarySDD as ite(label,high,low), complement flags) into a truth table and compared with the operation's definition on the oracle tables of the arguments. Regimes: exh3 = all 256 functions of 3 variables under each of the 12 vtrees on 3 leaves (compression on): and/or over all ordered pairs, all cofactors, exists, negation, and xor/iff/compose/ite on every 8th second operand; allvtrees = every vtree on 4 leaves (5 shapes x 24 labellings) and on 3 leaves, each with compression on and off; rand = short histories on random right-linear / left-linear / balanced / random-shape vtrees with random leaf labelling, <=6 variables, 2..1024-slot unique tables; uncompressed = compression off, <=5 variables, <=16 ops (structural Ord on SddPtr is exponential, see DESIGN); long = 300-700-op histories. Every 16 ops all earlier results are re-evaluated. Non-trivial = expected function neither constant nor literal; distinct = distinct (operation, expected function, vtree, compression) tuples.",
+        "rule": "Every SDD builder call (var, negate, and, or, xor, iff, ite, condition, exists, compose) is one evaluation: the returned SddPtr is evaluated structurally (OR over prime&sub, BinarySDD as ite(label,high,low), complement flags) into a truth table and compared with the operation's definition on the oracle tables of the arguments. Regimes: exh3 = all 256 functions of 3 variables under each of the 12 vtrees on 3 leaves (compression on): and/or over all ordered pairs, all cofactors, exists, negation, and xor/iff/compose/ite on every 8th second operand; allvtrees = every vtree on 4 leaves (5 shapes x 24 labellings) and on 3 leaves, each with compression on and off; rand = short histories on random right-linear / left-linear / balanced / random-shape vtrees with random leaf labelling, <=6 variables, 2..1024-slot unique tables; uncompressed = compression off, <=5 variables, <=16 ops (structural Ord on SddPtr is exponential, see DESIGN); long = 300-700-op histories. Every 16 ops all earlier results are re-evaluated. Non-trivial = expected function neither constant nor literal; distinct = distinct (operation, expected function, vtree, compression) tuples. Wide regime: the vtree's variables are spread over up to 200 rsdd labels (a label set with gaps, biased to the 64/128 word boundaries); the oracle keeps working on the dense variables through the harness's own label map.",
         "exhaustive_note": "regime exh3: all Boolean functions of 3 variables x all 12 vtrees on 3 leaves for negate/condition/exists and and/or over all ordered pairs (xor/iff/compose/ite sampled on every 8th operand); all vtree shapes x leaf labellings on 3 and 4 leaves are enumerated with one random history per compression mode; other operation histories are sampled",
         "assumptions": ASSUME_COMMON,
     },
@@ -51,11 +52,11 @@ PROPS = {
         "scale": {"quick": 1, "thorough": 30},
         "floors": {
             "quick": {"wf_results": 50000, "nodes_wf_checked": 10000, "canon_repeat_functions": 20000, "histories_with_growth": 500,
-                      "default_table_growths": 1, "big_rederivations": 90000},
+                      "default_table_growths": 1, "big_rederivations": 90000, "histories_over_spread_labels": 200},
             "thorough": {"wf_results": 1000000},
         },
         "sanitizers": ["miri_sdd"],
-        "rule": "For every decision node newly reachable from any result of the compressing builder the oracle computes the truth table of each prime and sub and asserts: primes non-false, pairwise disjoint, union true; every variable a prime depends on lies under the left child of the node's vtree position and every variable a sub depends on under the right child; subs pairwise distinct; no single-element node and no {(p,T),(!p,F)} node; and canonicity through a map truth table -> pointer over results AND every reachable node in both polarities (same function => same pointer, builder.eq agrees). Unique tables start at 2..64 slots so both SDD tables grow repeatedly; regime default_big uses the library-default capacity and 96 100 root decision nodes a_i & b_j over a 40-variable vtree (the real 131072-slot table grows), each re-derived by absorption and required to be the same pointer. evaluations = results with a not-yet-seen function; non-trivial = neither constant nor literal; distinct = distinct (function, vtree) pairs. The library's own is_canonical() is recorded as a cross-check only.",
+        "rule": "For every decision node newly reachable from any result of the compressing builder the oracle computes the truth table of each prime and sub and asserts: primes non-false, pairwise disjoint, union true; every variable a prime depends on lies under the left child of the node's vtree position and every variable a sub depends on under the right child; subs pairwise distinct; no single-element node and no {(p,T),(!p,F)} node; and canonicity through a map truth table -> pointer over results AND every reachable node in both polarities (same function => same pointer, builder.eq agrees). Unique tables start at 2..64 slots so both SDD tables grow repeatedly; regime default_big uses the library-default capacity and 96 100 root decision nodes a_i & b_j over a 40-variable vtree (the real 131072-slot table grows), each re-derived by absorption and required to be the same pointer. evaluations = results with a not-yet-seen function; non-trivial = neither constant nor literal; distinct = distinct (function, vtree) pairs. The library's own is_canonical() is recorded as a cross-check only. Wide regime: the vtree's variables are spread over up to 200 rsdd labels (a label set with gaps, biased to the 64/128 word boundaries); the oracle keeps working on the dense variables through the harness's own label map.",
         "exhaustive_note": "all 120 vtrees on 4 leaves are enumerated (one 70-op history each); histories are sampled",
         "assumptions": ASSUME_COMMON,
     },
